@@ -226,6 +226,22 @@ pub fn test_stats(c: &StatsCase, ctx: &mut CaseCtx) -> Result<(), String> {
     // must be the concatenation
     {
         let mut linter = harper_wasm::Linter::new(harper_wasm::Dialect::American);
+        let mut so_far: Vec<Record> = vec![];
+        // the page may save the file at any moment: before the first import and after each one
+        let snapshot = |linter: &harper_wasm::Linter, so_far: &[Record], at: String| -> Result<(), String> {
+            let exported = linter.generate_stats_file();
+            let got = Stats::read(&mut exported.as_bytes()).map_err(|e| format!("the file from generate_stats_file ({at}) cannot be read: {e}"))?;
+            if got.records != so_far {
+                return Err(format!(
+                    "generate_stats_file {at}: {} records, expected the {} imported so far",
+                    got.records.len(), so_far.len()
+                ));
+            }
+            Ok(())
+        };
+        if sessions.len() % 2 == 0 {
+            snapshot(&linter, &so_far, "before any import".to_string())?;
+        }
         for (i, srecs) in sessions.iter().enumerate() {
             let mut buf = vec![];
             Stats { records: srecs.clone() }.write(&mut buf).map_err(|e| format!("write failed: {e}"))?;
@@ -233,6 +249,10 @@ pub fn test_stats(c: &StatsCase, ctx: &mut CaseCtx) -> Result<(), String> {
             linter
                 .import_stats_file(file)
                 .map_err(|e| format!("import_stats_file rejects session {i} ({} records) written by Stats::write: {e}", srecs.len()))?;
+            so_far.extend(srecs.iter().cloned());
+            if (i + srecs.len()) % 2 == 0 {
+                snapshot(&linter, &so_far, format!("after importing session {i}"))?;
+            }
             // other use of the object in between (the user adds a word) leaves the log alone
             if i % 2 == 0 {
                 linter.import_words(vec![format!("zqstatword{i}")]);
@@ -466,7 +486,7 @@ pub fn test_ls_stats(c: &LsStatsCase, ctx: &mut CaseCtx) -> Result<(), String> {
 }
 
 pub fn run(run: &mut Run) {
-    run.rule = "histories of 1-4 append sessions of 0-4 record specs: synthetic lint records whose context tokens are arbitrary-Unicode Unlintable tokens (newline, CR, U+2028/2029, NEL, quotes, backslashes, controls, astral) or the real tokens harper lexes from generated words/sentences/number literals; all lints of a generated document via RecordKind::from_lint; configuration-update records from G-CONFIG and from client-style JSON (true / false / null entries, unknown names); arbitrary timestamps (a later session may carry older ones) and uuids. The same sessions are also imported one by one into a harper.js Linter (import_stats_file) (with import_words calls in between) whose generate_stats_file must read back as the concatenation. Oracle: exactly one line feed per record, read(write(a)++write(b)) == a++b, write is a homomorphism over concatenation, summary = reference fold. Non-trivial = a context contains a line-break-like or control char and there are >=2 sessions; distinct by case.".into();
+    run.rule = "histories of 1-4 append sessions of 0-4 record specs: synthetic lint records whose context tokens are arbitrary-Unicode Unlintable tokens (newline, CR, U+2028/2029, NEL, quotes, backslashes, controls, astral) or the real tokens harper lexes from generated words/sentences/number literals; all lints of a generated document via RecordKind::from_lint; configuration-update records from G-CONFIG and from client-style JSON (true / false / null entries, unknown names); arbitrary timestamps (a later session may carry older ones) and uuids. The same sessions are also imported one by one into a harper.js Linter (import_stats_file) (with import_words calls in between) whose generate_stats_file (also called before the first and between the imports) must read back as the concatenation so far. Oracle: exactly one line feed per record, read(write(a)++write(b)) == a++b, write is a homomorphism over concatenation, summary = reference fold. Non-trivial = a context contains a line-break-like or control char and there are >=2 sessions; distinct by case.".into();
     if !run.strict && run.known.get(KF_NONFINITE).is_some() {
         let c = StatsCase {
             sessions: vec![vec![RecSpec::DocLints {
